@@ -5,43 +5,63 @@ import "strings"
 // Rules decided by one property that are necessary conditions of another property's statement as well. The including
 // check runs them (quick tier) and reports their instances under their own rule ids, so that a change which breaks the
 // shared condition is reported by every property whose statement it breaks, not only by the rule's home property.
-//
-//	C01 (the handler sees exactly the committed transactions with every column's name, type and value text; v1/v2 rows,
-//	     4/6-byte ids, partial images, GTID on/off, CRC on/off) is the conjunction of the clause properties: it includes
-//	    <- C02 (grouping), C09 (row splitting), C10-C14 (value text per column type), C15 (table map and metadata),
-//	       C16 (checksum stripping, header and body layouts) whole, C04 R6 (no accepted event skips the dispatch),
-//	       C08 R2/R4 (values are not shared storage)
-//	C03 (labels chain, exact resume points) <- C04 R2/R3/R6 (the cell moves only at an accepted commit and at a rotation; no accepted event skips the dispatch)
-//	C08 (delivered data is private)         <- C02 R4 (the buffer handed to the handler is replaced, not re-sliced)
-//	C03, C04 (labels are resume points; the next attempt starts at the kept position) <- C07 R3 (the request carries the stored file and offset)
-//	C10-C14 (value text of a column type)   <- C15 R5 and C09 R2 for the column types of that property (per-type metadata
-//	                                           layout; the length rule agrees with the value decoder)
-//	C12 (timestamp text)                    <- C08 R2 (a returned value aliases only the event buffer or fresh memory)
-//	C13 (NULL / empty / absent)             <- C09 R3 of the streamer's image decoders (ordinal / NULL index / offset bookkeeping)
+// The table below is the whole policy; DESIGN.md 9.4/9.5 gives the reason for each line.
 var propIncludes = map[string][]inc{
 	"C01": {
 		{"C02", nil}, {"C09", nil}, {"C10", nil}, {"C11", nil}, {"C12", nil}, {"C13", nil}, {"C14", nil}, {"C15", nil}, {"C16", nil},
-		{"C04", map[string]func(string) bool{"C04-R6": nil}},
-		{"C08", map[string]func(string) bool{"C08-R2": nil, "C08-R4": nil}},
+		{"C04", rules("C04-R6", "C04-R7")},
+		{"C08", rules("C08-R1", "C08-R2", "C08-R4", "C08-R5")},
 	},
+	// grouping needs every event to reach its arm and the statement text to be the master's
+	"C02": {{"C04", rules("C04-R6", "C04-R7")}, {"C16", map[string]func(string) bool{"C16-R4": prefix("layout@Query", "endian@Query"), "C16-R5": nil, "C16-R6": nil}}},
 	"C03": {
-		{"C04", map[string]func(string) bool{"C04-R2": nil, "C04-R3": nil, "C04-R6": nil}},
+		{"C04", rules("C04-R2", "C04-R3", "C04-R6", "C04-R7")},
 		{"C07", map[string]func(string) bool{"C07-R3": resumeArgs}},
+		{"C16", map[string]func(string) bool{"C16-R1": nil, "C16-R2": nil, "C16-R3": prefix("header@NextPosition"), "C16-R4": prefix("layout@Rotate", "endian@Rotate")}},
 	},
 	"C04": {{"C07", map[string]func(string) bool{"C07-R3": resumeArgs}}},
-	"C08": {{"C02", map[string]func(string) bool{"C02-R4": nil}}},
-	"C10": {{"C15", map[string]func(string) bool{"C15-R5": metaTypes(typesC10...)}}, {"C09", map[string]func(string) bool{"C09-R2": cellTypes(typesC10...)}}},
-	"C11": {{"C15", map[string]func(string) bool{"C15-R5": metaTypes(typesC11...)}}, {"C09", map[string]func(string) bool{"C09-R2": cellTypes(typesC11...)}}},
-	"C12": {
-		{"C15", map[string]func(string) bool{"C15-R5": metaTypes(typesC12...)}},
-		{"C09", map[string]func(string) bool{"C09-R2": cellTypes(typesC12...)}},
-		{"C08", map[string]func(string) bool{"C08-R2": nil}},
-	},
-	"C13": {
-		{"C15", map[string]func(string) bool{"C15-R5": metaTypes(typesC13...)}},
-		{"C09", map[string]func(string) bool{"C09-R2": cellTypes(typesC13...), "C09-R3": func(key string) bool { return !strings.HasPrefix(key, "skeleton@Rows[") }}},
-	},
-	"C14": {{"C15", map[string]func(string) bool{"C15-R5": metaTypes("TypeJSON")}}, {"C09", map[string]func(string) bool{"C09-R2": cellTypes("TypeJSON")}}},
+	"C08": {{"C02", rules("C02-R4")}},
+	"C09": {{"C15", rules("C15-R1", "C15-R3", "C15-R5")}, {"C08", rules("C08-R1")}, {"C16", rules("C16-R1", "C16-R6")}},
+	"C10": append(chain(typesC10), inc{"C15", rules("C15-R2")}),
+	"C11": chain(typesC11),
+	"C12": chain(typesC12),
+	"C13": chain(typesC13),
+	"C14": chain([]string{"TypeJSON"}),
+	"C15": {{"C10", rules("C10-R1")}, {"C08", rules("C08-R1")}},
+	"C17": {{"C16", map[string]func(string) bool{"C16-R3": prefix("header@")}}},
+	"C19": {{"C16", map[string]func(string) bool{"C16-R4": prefix("layout@mariadbBinlogEvent.GTID", "layout@mysql56BinlogEvent.GTID", "endian@mariadbBinlogEvent.GTID", "endian@mysql56BinlogEvent.GTID")}}, {"C18", rules("C18-R3")}},
+	"C20": {{"C13", map[string]func(string) bool{"C13-R2": prefix("three-way@")}}},
+}
+
+// chain: what the value text of a column type depends on before the cell decoder runs - the right table map for the
+// rows (C15 R1/R3), its per-type metadata (C15 R5), the packet copied into a private buffer (C08 R1: table-map types and
+// string values are windows of it), cells found at the right offsets (C09 R2 for the types, R3-R5), no history dependence
+// (C09 R7), no returned value in shared storage (C08 R2).
+func chain(types []string) []inc {
+	return []inc{
+		{"C15", map[string]func(string) bool{"C15-R1": nil, "C15-R3": nil, "C15-R5": metaTypes(types...)}},
+		{"C09", map[string]func(string) bool{"C09-R2": cellTypes(types...), "C09-R3": nil, "C09-R4": nil, "C09-R5": nil, "C09-R7": nil}},
+		{"C08", rules("C08-R1", "C08-R2")},
+	}
+}
+
+func rules(ids ...string) map[string]func(string) bool {
+	m := map[string]func(string) bool{}
+	for _, id := range ids {
+		m[id] = nil
+	}
+	return m
+}
+
+func prefix(ps ...string) func(string) bool {
+	return func(key string) bool {
+		for _, p := range ps {
+			if strings.HasPrefix(key, p) {
+				return true
+			}
+		}
+		return false
+	}
 }
 
 var (
